@@ -21,12 +21,13 @@ META = {
                   "and judged by the same TLA+ Parse.",
     "level_note": "Token abstraction: uniformity within a token class is assumed; the abstraction contract (which fields the "
                   "references accept) is checked by the harness for every concrete line. Bounded line length for the "
-                  "exhaustive part; the 12-token alphabet is exhaustive to 5/6 tokens, longer lines (8/10 tokens) are enumerated "
+                  "exhaustive part; the 12-token alphabet is exhaustive to 5/6 tokens, longer lines (8/9 tokens, record-shaped ones 13/16) are enumerated "
                   "over the 5 token classes with members rotated, never two whole-field tokens glued.",
 }
 
 FULL = '{"A4", "A6", "A6z", "Abad", "N", "Nidn", "Nbad", "SP", "TAB", "HASH", "CMT", "CR"}'
 CLASSES = '{"cA", "cN", "cJ", "cS", "cH"}'
+RECORDS = '{"cA", "cN", "cS"}'
 LEMMAS = ["InvRoundTrip", "InvImplRefines", "InvCommentIgnored", "InvSeparatorsIrrelevant", "InvPriority"]
 
 
@@ -34,7 +35,7 @@ def run(ctx):
     q = ctx.tier == "quick"
     d = ctx.spec_copy("hosts")
     ctx.rule = ("MC: lemmas of HostsLine.tla for every token line up to the bound; G: every token line (12 tokens to 5/6, "
-                "5 classes with rotated members to 8/10, no two whole-field tokens glued) with the outcome Parse predicts, "
+                "5 classes with rotated members to 8/9, record-shaped class lines to 13/16, no two whole-field tokens glued) with the outcome Parse predicts, "
                 "replayed on UnmarshalText/MarshalText under 3 concretisations x {fresh, dirty} record; T: seeded random byte "
                 "lines abstracted by the reference functions and judged by HostsLineTrace.tla. "
                 "distinct_nontrivial = distinct non-empty token lines replayed")
@@ -52,9 +53,13 @@ def run(ctx):
     write_cfg(d / "HostsLineGenFull_run.cfg", "GSpec", {"Alphabet": FULL, "MaxLen": 5 if q else 6},
               invariants=["Emit", "GenLemmas"])
     ctx.tlc(d, "HostsLineGen", "HostsLineGenFull_run.cfg", label="line-gen-full", timeout=1500)
-    write_cfg(d / "HostsLineGenClass_run.cfg", "GSpec", {"Alphabet": CLASSES, "MaxLen": 8 if q else 10},
+    write_cfg(d / "HostsLineGenClass_run.cfg", "GSpec", {"Alphabet": CLASSES, "MaxLen": 8 if q else 9},
               invariants=["Emit", "GenLemmas"])
     ctx.tlc(d, "HostsLineGen", "HostsLineGenClass_run.cfg", label="line-gen-class", timeout=1800)
+    # record-shaped lines: addresses, names and separators only (most are accepted, up to 4-5 names)
+    write_cfg(d / "HostsLineGenRec_run.cfg", "GSpec", {"Alphabet": RECORDS, "MaxLen": 13 if q else 16},
+              invariants=["Emit", "GenLemmas"])
+    ctx.tlc(d, "HostsLineGen", "HostsLineGenRec_run.cfg", label="line-gen-records", timeout=1800)
     nvec = count_lines(d / "c07_vectors.ndjson")
 
     ctx.vh(["c07", "replay-lines", d / "c07_vectors.ndjson", ctx.scratch / "lines.res"], timeout=1800)
